@@ -4,3 +4,7 @@ import "verifmc/vsync"
 
 // vsyncPoint is an explicit scheduling point in harness code (a no-op without scheduler).
 func vsyncPoint() { vsync.PointHere() }
+
+// touch marks an access of harness-owned shared memory (a no-op without scheduler): two threads parked at
+// touches of the same address, one of them writing, are a data race the exploration reports itself.
+func touch(addr any, write bool, what string) { vsync.Touch(addr, write, what) }
